@@ -34,15 +34,27 @@ inductive GammaFn (α : Type) where
   | rankDep             -- 1 / (rank + 1)
   | sq                  -- sigma_squared / c**2
   | zero
+  /-- any pure callback `gamma(c, k, mu, sigma_squared, team, rank)`; `team` is the list of the team's
+  players (with their tau-inflated prior values), in the team's order -/
+  | fn (f : α → Nat → α → α → List (Rating α) → Nat → α)
 
-def gammaVal (g : GammaFn α) (c : α) (k : Nat) (_mu sig2 : α) (rank : Nat) : α :=
+/-- the value the callback returns on the arguments `_compute` passes it, in Python's argument order
+`gamma(c, k, mu, sigma_squared, team, rank)`; the six tagged members ignore `team` -/
+def gammaVal (g : GammaFn α) (c : α) (k : Nat) (mu sig2 : α) (team : List (Rating α)) (rank : Nat) : α :=
   match g with
+  | .fn f => f c k mu sig2 team rank
   | .dflt => sqrt sig2 / c
   | .const x => x
   | .invK => ofNat 1 / ofNat k
   | .rankDep => ofNat 1 / ofNat (rank + 1)
   | .sq => sig2 / (c * c)
   | .zero => ofNat 0
+
+/-- the team-reading callback of the harness (gamma tag `"T"`):
+`lambda c, k, mu, s2, team, rank: math.sqrt(sum(p.sigma*p.sigma for p in team))/c`
+(Python's `sum` starts from int 0 and adds left to right, like `sumL`) -/
+def gammaTeamSigma : GammaFn α :=
+  .fn (fun c _ _ _ team _ => sqrt (sumL (team.map (fun p => p.sigma * p.sigma))) / c)
 
 inductive Kind where
   | PL | BTF | BTP | TMF | TMP
